@@ -830,7 +830,7 @@ def c03(tier, replay=None):
     bases = [render(o["d"]["doc"], ("lf", "crlf", "cr")[i % 3]) for i, (tag, o) in enumerate(iter_tlc_json(out, ("DOC",)))]
     cleanup(wd)
     rnd.shuffle(bases)
-    nb = int(os.environ.get("C03_BASES", "0")) or (150 if tier == "quick" else 1500)
+    nb = int(os.environ.get("C03_BASES", "0")) or (150 if tier == "quick" else 600)
     bases = bases[:nb]
     # hand-written seeds for constructs the generator does not produce
     seeds = ["", "﻿", "data_", "data_a loop_", "loop_ _a _a 1 2", "data_a\nloop_ _ 1", "data_a _x [", "data_a _x {'k':", "data_a _x {'k'", "data_a\n;", "data_a _x '''", "save_", "data_a save_f save_g",
